@@ -177,7 +177,7 @@ fn magnitude_total(t: &TxLogEntry) -> i128 {
 
 /// Reference filter written from the RetrieveTxQueryArgs field documentation.
 /// Returns the membership of an entry, plus the list of criteria it definitely fails.
-fn classify(t: &TxLogEntry, a: &RetrieveTxQueryArgs) -> (M, Vec<&'static str>) {
+fn classify(t: &TxLogEntry, a: &RetrieveTxQueryArgs, reading: u8) -> (M, Vec<&'static str>) {
 	let mut m = M::Must;
 	let mut fails = vec![];
 	let mut crit = |name: &'static str, r: M, m: &mut M| {
@@ -241,25 +241,14 @@ fn classify(t: &TxLogEntry, a: &RetrieveTxQueryArgs) -> (M, Vec<&'static str>) {
 			&mut m,
 		);
 	}
-	// amount: documented as (credited - debited); the implementation documents the magnitude
-	// for sent entries. Where both readings agree the verdict is firm, otherwise don't-care.
+	// amount: documented as (credited - debited) [reading 0]; the implementation documents the
+	// magnitude for sent entries [reading 1]. The caller requires one reading to explain everything.
+	let total = if reading == 0 { signed_total(t) } else { magnitude_total(t) };
 	if let Some(v) = a.min_amount {
-		let s = signed_total(t) >= v as i128;
-		let g = magnitude_total(t) >= v as i128;
-		crit(
-			"min_amount",
-			if s == g { b(s) } else { M::May },
-			&mut m,
-		);
+		crit("min_amount", b(total >= v as i128), &mut m);
 	}
 	if let Some(v) = a.max_amount {
-		let s = signed_total(t) <= v as i128;
-		let g = magnitude_total(t) <= v as i128;
-		crit(
-			"max_amount",
-			if s == g { b(s) } else { M::May },
-			&mut m,
-		);
+		crit("max_amount", b(total <= v as i128), &mut m);
 	}
 	if let Some(v) = a.min_creation_timestamp {
 		crit("min_creation_timestamp", b(t.creation_ts >= v), &mut m);
@@ -424,7 +413,7 @@ fn culprits(wal: &Wallet, q: &Q, mine: &[&TxLogEntry]) -> Vec<&'static str> {
 			Err(_) => continue,
 		};
 		if let Ok((_, res)) = owner::retrieve_txs(wal.inst.clone(), wal.m(), &None, false, None, None, Some(single.clone())) {
-			let omitted = mine.iter().any(|e| classify(e, &single).0 == M::Must && !res.iter().any(|r| r.id == e.id && r.parent_key_id == e.parent_key_id));
+			let omitted = mine.iter().any(|e| classify(e, &single, 1).0 == M::Must && !res.iter().any(|r| r.id == e.id && r.parent_key_id == e.parent_key_id));
 			if omitted {
 				out.push(FIELD_NAMES[f]);
 			}
@@ -436,8 +425,8 @@ fn culprits(wal: &Wallet, q: &Q, mine: &[&TxLogEntry]) -> Vec<&'static str> {
 	out
 }
 
-fn judge(
-	rep: &mut Report,
+fn judge_r(
+	reading: u8,
 	wal: &Wallet,
 	log: &Log,
 	acct: &Identifier,
@@ -445,7 +434,7 @@ fn judge(
 	q: &Q,
 	res: &[TxLogEntry],
 	log_json: &dyn Fn() -> Value,
-) {
+) -> Result<(u8, usize, bool), (String, String, Value)> {
 	let a = &q.args;
 	let mine: Vec<&TxLogEntry> = log
 		.entries
@@ -456,35 +445,33 @@ fn judge(
 	// 1. account
 	for r in res {
 		if r.parent_key_id != *acct {
-			rep.violation(
+			return Err(viol(
 				"C19|other-account-entry-returned",
 				&format!("query on account {} returned entry id {} of account {}", acct_label, r.id, idstr(&r.parent_key_id)),
 				case(json!({"foreign_entry": entry_json(r)})),
-			);
-			return;
+			));
 		}
 	}
 	// 2. every returned entry satisfies every criterion
 	let mut must = 0usize;
 	let mut may = 0usize;
 	for e in mine.iter() {
-		match classify(e, a).0 {
+		match classify(e, a, reading).0 {
 			M::Must => must += 1,
 			M::May => may += 1,
 			M::No => {}
 		}
 	}
 	for r in res {
-		let (m, fails) = classify(r, a);
+		let (m, fails) = classify(r, a, reading);
 		if m == M::No {
 			let mut f = fails.clone();
 			f.sort();
-			rep.violation(
+			return Err(viol(
 				&format!("C19|extra|fails={}", f.join("+")),
 				&format!("returned entry id {} fails criteria {:?}", r.id, f),
 				case(json!({"entry": entry_json(r)})),
-			);
-			return;
+			));
 		}
 	}
 	// duplicates
@@ -493,8 +480,7 @@ fn judge(
 	let before = ids.len();
 	ids.dedup();
 	if ids.len() != before {
-		rep.violation("C19|duplicate-entry", "an entry was returned twice", case(json!({})));
-		return;
+		return Err(viol("C19|duplicate-entry", "an entry was returned twice", case(json!({}))));
 	}
 	// 3. length
 	let limit = a.limit.map(|l| l as usize).unwrap_or(usize::MAX);
@@ -504,17 +490,16 @@ fn judge(
 		// find an omitted must entry for the report
 		let omitted: Vec<Value> = mine
 			.iter()
-			.filter(|e| classify(e, a).0 == M::Must && !res.iter().any(|r| r.id == e.id))
+			.filter(|e| classify(e, a, reading).0 == M::Must && !res.iter().any(|r| r.id == e.id))
 			.map(|e| entry_json(e))
 			.collect();
 		let mut fields: Vec<&str> = culprits(wal, q, &mine);
 		fields.sort();
-		rep.violation(
+		return Err(viol(
 			&format!("C19|missing|criteria={}", fields.join("+")),
 			&format!("{} entries returned, expected between {} and {} (limit {:?}); qualifying entries omitted: {}", res.len(), lo, hi, a.limit, omitted.len()),
 			case(json!({"omitted_qualifying": omitted})),
-		);
-		return;
+		));
 	}
 	// 4. order: monotone in the requested key/direction (ties free); entries without a key
 	//    (unconfirmed under ConfirmationTimestamp) may sit anywhere.
@@ -529,13 +514,13 @@ fn judge(
 			}
 		})
 	};
-	if !(mono(&|k| k.0) || mono(&|k| k.1)) {
-		rep.violation(
+	let sel_r = |k: &(i128, i128)| if reading == 0 { k.0 } else { k.1 };
+	if !mono(&sel_r) {
+		return Err(viol(
 			&format!("C19|order|field={}|desc={}", sort_field_name(a), desc),
 			"result is not monotone in the requested sort key/direction",
 			case(json!({})),
-		);
-		return;
+		));
 	}
 	// 5. truncation: no omitted qualifying entry sorts strictly before a returned one
 	if res.len() == limit && limit > 0 {
@@ -553,20 +538,18 @@ fn judge(
 				None => return true,
 			};
 			mine.iter()
-				.filter(|e| classify(e, a).0 == M::Must && !res.iter().any(|r| r.id == e.id))
+				.filter(|e| classify(e, a, reading).0 == M::Must && !res.iter().any(|r| r.id == e.id))
 				.filter_map(|e| sort_keys(e, a))
 				.all(|k| if desc { sel(&k) <= wv } else { sel(&k) >= wv })
 		};
-		if !(check(&|k| k.0) || check(&|k| k.1)) {
-			rep.violation(
+		if !check(&sel_r) {
+			return Err(viol(
 				&format!("C19|truncation|field={}|desc={}", sort_field_name(a), desc),
 				"limit kept an entry that sorts after an omitted qualifying entry",
 				case(json!({})),
-			);
-			return;
+			));
 		}
 	}
-	// behaviour class for the evidence
 	let bucket = if res.is_empty() {
 		0
 	} else if res.len() == mine.len() {
@@ -574,18 +557,53 @@ fn judge(
 	} else {
 		1
 	};
-	if q.mask != 0 {
-		rep.distinct(&(q.mask, bucket, res.len() == limit));
-	}
-	if bucket == 1 {
-		rep.count("result:proper-subset");
-	} else if bucket == 0 {
-		rep.count("result:empty");
-	} else {
-		rep.count("result:all");
-	}
-	if may > 0 {
-		rep.count("queries-with-dont-care-entries");
+	Ok((bucket, may, res.len() == limit))
+}
+
+fn viol(sig: &str, what: &str, case: Value) -> (String, String, Value) {
+	(sig.to_string(), what.to_string(), case)
+}
+
+/// The amount documentation reads "(amount_credited - amount_debited)" while the implementation
+/// documents the magnitude for sent entries. Either reading is accepted, but one reading must
+/// explain the whole answer (membership for every entry type, min and max bounds, TotalAmount order).
+fn judge(
+	rep: &mut Report,
+	wal: &Wallet,
+	log: &Log,
+	acct: &Identifier,
+	acct_label: &str,
+	q: &Q,
+	res: &[TxLogEntry],
+	log_json: &dyn Fn() -> Value,
+) {
+	let r = match judge_r(1, wal, log, acct, acct_label, q, res, log_json) {
+		Ok(x) => Ok(x),
+		Err(e) => match judge_r(0, wal, log, acct, acct_label, q, res, log_json) {
+			Ok(x) => {
+				rep.count("explained-only-by-signed-amount-reading");
+				Ok(x)
+			}
+			Err(_) => Err(e),
+		},
+	};
+	match r {
+		Err((sig, what, case)) => rep.violation(&sig, &what, case),
+		Ok((bucket, may, limit_hit)) => {
+			if q.mask != 0 {
+				rep.distinct(&(q.mask, bucket, limit_hit));
+			}
+			if bucket == 1 {
+				rep.count("result:proper-subset");
+			} else if bucket == 0 {
+				rep.count("result:empty");
+			} else {
+				rep.count("result:all");
+			}
+			if may > 0 {
+				rep.count("queries-with-dont-care-entries");
+			}
+		}
 	}
 }
 
